@@ -18,6 +18,10 @@ def sh(cmd, **kw):
 def main():
     only = sys.argv[1:]
     rows = []
+    # evidence files are rewritten by every check run: keep the clean-tree ones and put them back afterwards
+    import shutil, tempfile
+    keep = tempfile.mkdtemp(prefix="verif-evidence-")
+    shutil.copytree(os.path.join(VERIF, "evidence"), os.path.join(keep, "evidence"))
     for sid in sorted(os.listdir(os.path.join(VERIF, "seeded"))):
         d = os.path.join(VERIF, "seeded", sid)
         patch = os.path.join(d, "patch.diff")
@@ -44,6 +48,9 @@ def main():
             rows.append((sid, meta["property"], " ".join(caught), meta.get("needs", "")[:80]))
         finally:
             sh("git -C %s checkout -- ." % REPO)
+    shutil.rmtree(os.path.join(VERIF, "evidence"))
+    shutil.copytree(os.path.join(keep, "evidence"), os.path.join(VERIF, "evidence"))
+    shutil.rmtree(keep)
     for r in rows:
         print(" | ".join(r))
     with open(os.path.join(VERIF, "seeded", "RESULTS.md"), "a") as f:
